@@ -44,7 +44,7 @@ TECHNIQUE = "exhaustive fault/close-order enumeration + Hypothesis op scripts vs
 LEVEL_TEXT = ("All close/half-close/cancel orders, connect outcomes, single injections and single withheld hooks "
               "over a 4-message script are enumerated completely for TCP and UDP; longer scripts are sampled.")
 LEVEL_NOTE = "trusts lib/driver.py's model of server.py command handling and the reference relay model in this file"
-QUICK_N, THOROUGH_N = 60_000, 3_000_000
+QUICK_N, THOROUGH_N = 30_000, 3_000_000
 
 C, S = 0, 1  # sides
 
